@@ -53,11 +53,11 @@ func (y yieldClient) MatchingVersions(ctx context.Context, vk resolve.VersionKey
 func newResolver(sys string, c resolve.Client) resolve.Resolver {
 	switch sys {
 	case "NPM":
-		return npmres.NewResolver(c)
+		return bounded(npmres.NewResolver(c))
 	case "Maven":
-		return mavenres.NewResolver(c)
+		return bounded(mavenres.NewResolver(c))
 	}
-	return pypires.NewResolver(c)
+	return bounded(pypires.NewResolver(c))
 }
 
 // graphDump canonicalises and renders a resolution result (without Duration).
@@ -493,6 +493,7 @@ func C05(tier string) {
 	run.Cov["distinct_nontrivial"] = nontrivial
 	run.Cov["schedules"] = schedules
 	run.Cov["per_system"] = per
+	run.Cov["non_terminating_resolutions"] = resolveCutReport()
 	run.Cov["explanation"] = "states = universes; transitions = Resolve calls + scheduling points; schedules are executed on the real resolvers and client under the controlled scheduler"
 	run.Assumptions = []string{"memory-level interleavings between scheduling points are excluded by the no-write invariant (DESIGN §3.4): a resolver that does not write client-owned memory cannot race on it", "universes beyond the deviation bound and more than 2-3 concurrent resolutions are not covered"}
 	runRacePass(run, "C05", tier)
